@@ -24,7 +24,8 @@ func init() {
 			"index, count·components·size = view length, scalar wire type = componentType), ALIGN-1 (views start and the counter ends on 4-byte boundaries), " +
 			"GLB-1 (12-byte header constants, total length = bytes written on each path, chunk length = data + padding ≡ 0 mod 4, padding bytes 0x20/0x00, chunk order, " +
 			"little-endian), REF-1/DEDUP-1 (an index derived from len(w.X) that is stored, recorded in a dedup table or returned is the position of an element " +
-			"appended on the same path; table key = looked-up key; appended entries are recorded; looked-up indices used unmodified). Def-use / dominance rules give: " +
+			"appended on the same path; table key = looked-up key; appended entries are recorded; looked-up indices used unmodified), DEDUP-2 (a constant \"absent\" marker in a " +
+			"dedup key lies outside the interval of the computed indices that can stand in the same field, or another key field separates the two; no negative sentinel reaches a glTF id slot). Def-use / dominance rules give: " +
 			"WIDTH-1 (uint16 indices guarded by the vertex count of the same mesh), EXT-1/EXT-2 (extensions stored are declared used, required ⊆ used), SINK-1/BUF-1/OUT-1 " +
 			"(bit writer wraps the payload buffer little-endian; buffer.byteLength = counter, data URI = StdEncoding of the payload, embedding strategy per container, " +
 			"extension lists from the matching sets), AXIS-3/SRC-1/MINMAX-1 (components in X,Y,Z,W order; element i of the iterator whose Len() bounds the loop; min/max are " +
